@@ -40,6 +40,7 @@ pub open spec fn file_write_frame(o: BufWriter<File>, n: BufWriter<File>) -> boo
 }
 impl Write for BufWriter<File> {
     open spec fn sink(&self) -> Seq<u8> { self.logical() }
+    open spec fn infallible(&self) -> bool { false }
     #[verifier::external_body]
     fn write_all(&mut self, buf: &[u8]) -> (r: Result<(), IoError>)
         ensures file_write_frame(*old(self), *final(self)),
@@ -55,19 +56,3 @@ impl Write for BufWriter<File> {
     fn write_u64<B: ByteOrder>(&mut self, x: u64) -> (r: Result<(), IoError>) ensures file_write_frame(*old(self), *final(self)) { unimplemented!() }
 }
 
-// ---- xxhash_rust::xxh3::Xxh3: streaming hash = hash of the concatenation; xxh3 itself is uninterpreted ----
-pub uninterp spec fn xxh3(b: Seq<u8>) -> u64;
-pub mod xxhash_rust { pub mod xxh3 {
-    use super::super::*;
-    pub struct Xxh3 { pub acc: Ghost<Seq<u8>> }
-    impl Xxh3 {
-        #[verifier::external_body]
-        pub fn default() -> (r: Self) ensures r.acc@ == Seq::<u8>::empty() { unimplemented!() }
-        #[verifier::external_body]
-        pub fn new() -> (r: Self) ensures r.acc@ == Seq::<u8>::empty() { unimplemented!() }
-        #[verifier::external_body]
-        pub fn update(&mut self, b: &[u8]) ensures final(self).acc@ == old(self).acc@ + b@ { unimplemented!() }
-        #[verifier::external_body]
-        pub fn finish(&self) -> (r: u64) ensures r == xxh3(self.acc@) { unimplemented!() }
-    }
-} }
